@@ -30,7 +30,7 @@ import math
 import numpy as np
 
 from runtime import oracles
-from runtime.common import Recorder, close, use_repo
+from runtime.common import Recorder, close, use_repo, rot_frame
 
 PENALTIES = [0.0, 0.5, 1.0, 2.0, 4.0]
 TARGET = "skchange/change_detectors/pelt.py::run_pelt"
@@ -272,16 +272,16 @@ def call_class(cost_obj, X, beta, m, n_train=None):
     scale = beta / (2 * p * math.log(n_train))
     det = PELT(cost=cost_obj, penalty_scale=scale, min_segment_length=m)
     train = X if n_train == n else np.vstack([X, X, X])[:n_train]
-    df = pd.DataFrame(X)
+    df = rot_frame(X, 7)
     # history: an earlier fit on data of another length (other penalty) followed by scoring the same frame must leave no trace
     det.fit(pd.DataFrame(np.vstack([X, X])[: n + 3]))
     det.transform_scores(df)
     det.predict(df)
-    det.fit(pd.DataFrame(train))
+    det.fit(rot_frame(train, 8))
     ts0 = np.asarray(det.transform_scores(df), dtype=float).reshape(-1)       # first call after the refit: nothing of the earlier fit may be reused
     # ... and on the SAME fit: calls on another series with an equal index (same length, default RangeIndex) in between; what they computed
     # describes that series, not df
-    other = pd.DataFrame(np.ascontiguousarray(X[::-1]) * 1.5 + 0.25)
+    other = pd.DataFrame(np.ascontiguousarray(X[::-1]) * 1.5 + 0.25, index=df.index)
     det.predict(other)
     det.transform_scores(other)
     ts = np.asarray(det.transform_scores(df), dtype=float).reshape(-1)        # nothing of the earlier calls may be reused
